@@ -9,6 +9,9 @@ CFG = dict(
         # pruned queries = exhaustive scan for EVERY tree with the invariant
         "pruned_eq_scan", "containing_eq_scan_generic",
         "containing_eq_scan", "withinRange_eq_scan", "rayElements_eq_scan", "traverse_visits_all_hits",
+        "traverse_monotone_callback",
+        # the on-face corner of the slab test under the other IEEE outcome (+0)
+        "slab_mono_posZero", "slab_posZero_of_negZero", "rayElements_eq_scan_posZero",
         # best-first closest point
         "closest_eq_scan_generic", "closest_eq_scan", "octree_closest_eq_scan_of_input",
         # newOctree establishes the invariant: every element list, every depth
@@ -41,14 +44,19 @@ CFG = dict(
         "The triangle Hit compares the distance from ray.At(min) with max (rendering/mesh.go:53), so the contract holds for "
         "min = 0 only; the harness uses min = 0 for rendering",
         "zero direction components: the slab model makes the IEEE outcome of 1/±0 explicit (origin strictly inside the widened slab: range "
-        "unchanged; strictly outside: reject), so slab_mono / slab_sound and every ray theorem cover axis-parallel rays. One corner remains: "
-        "origin EXACTLY on a widened face with a zero component — Go computes 0*Inf = NaN and accepts for +0, rejects for -0; the Float model "
-        "reproduces both bit-for-bit (c16.aabb.ray: both signs of zero, origins exactly on the face), the real-number reading rejects",
+        "unchanged; strictly outside: reject), so slab_mono / slab_sound and every ray theorem cover axis-parallel rays. The corner 'origin "
+        "EXACTLY on a widened face with a zero component' (Go: 0*Inf = NaN; accepted for +0, rejected for -0) is covered under BOTH outcomes: "
+        "intersectsRayInRange is the -0 reading, intersectsRayInRangePos the +0 reading (Lemmas/Tree.lean, ℝ only), both monotone in the box "
+        "(slab_mono, slab_mono_posZero), tree = scan for both (rayElements_eq_scan, rayElements_eq_scan_posZero); which of the two a given "
+        "ray gets is decided by the sign bit of its zero component, which the real-number model does not carry; the Float model reproduces "
+        "both bit-for-bit (c16.aabb.ray: both signs of zero, origins exactly on the face). The other ray theorems (traverse, BVH, octree hit) "
+        "are stated for the -0 reading; their proofs use only monotonicity, which slab_mono_posZero supplies for the +0 reading",
         "a zero-length segment (Go: division by the length 0, NaN closest point) is excluded by hypothesis (prim_closest_in_box, "
         "octree_closest_eq_scan_of_input) and by the generator (consecutive line-strip vertices are distinct)",
-        "TraverseIntersectingRay: the theorem (traverse_visits_all_hits) covers callbacks that leave *min/*max alone — which includes "
-        "rendering.Mesh.Hit, whose callback only shortens its own captured max; callbacks that write through the pointers are modelled "
-        "(Oct.traverse) but no theorem is stated for them. rendering.Mesh.Hit as a whole is checked by the oracle `octmesh` vs HitList",
+        "TraverseIntersectingRay: traverse_visits_all_hits covers callbacks that leave *min/*max alone (this includes rendering.Mesh.Hit, whose "
+        "callback only shortens its own captured max); traverse_monotone_callback covers callbacks that move the range only INTO the current "
+        "range and not inside a floor range r*: visited ⊆ scan(initial range), scan(r*) ⊆ visited. Callbacks that widen the range are "
+        "modelled (Oct.traverse) but no theorem is stated for them. rendering.Mesh.Hit as a whole is checked by the oracle `octmesh` vs HitList",
         "negative maxDepth (unbounded recursion on coincident elements in Go) is outside the model: depth is a natural number",
     ],
     assumptions=["float64 arithmetic in Go on amd64 is IEEE-754 without FMA contraction"],
@@ -59,7 +67,7 @@ CFG = dict(
              "an element's closest point lies in its own box (points, non-degenerate segments, well-formed boxes, non-degenerate triangles — "
              "triangles by a barycentric argument on the fixed PointInSide). For EVERY tree whose node boxes cover their elements: the pruned "
              "queries (containing point, within range, ray, traverse with a range-preserving callback) equal the exhaustive scan (same elements, "
-             "same order); best-first ClosestPoint returns a distance minimiser and that element's closest point (ties: any minimiser). "
+             "same order); traverse with a monotone range-shortening callback is sandwiched between the scans for the initial and the floor range; best-first ClosestPoint returns a distance minimiser and that element's closest point (ties: any minimiser). "
              "build_covers: for every element list and every depth incl. 0 and automatic, newOctree (octant assignment, depth cut-off, single-child "
              "collapse, widening loop) builds a covering tree storing a permutation of the input; hence end-to-end equality with the scan over the "
              "input. BVH: Hit = HitList.Hit (flag and nearest distance) for every covering tree and any list order; NewBVHTree builds a covering "
@@ -75,8 +83,8 @@ CFG = dict(
              "helper (tied bit-for-bit). Not proved: floating-point rounding (that the float tree satisfies Covers is observed; closest-element identity "
              "is compared by distance with relative tolerance 1e-9: ties aside); that rendering.Triangle / Sphere satisfy the primitive contract "
              "(oracle only; holds for minDistance = 0 only, see residue); the BVH has no model-vs-impl line (random shape). Corner: a ray with a zero "
-             "direction component whose origin lies EXACTLY on a box's ε-widened face is sign-of-zero dependent in Go (NaN); the real-number "
-             "reading rejects it. Excluded by hypothesis: zero-length segments, zero-area triangles, boxes with negative extents, negative depth.",
+             "direction component whose origin lies EXACTLY on a box's ε-widened face is sign-of-zero dependent in Go (NaN): both outcomes are "
+             "covered by theorems (-0 reading = the model; +0 reading = intersectsRayInRangePos), the sign bit itself is not modelled over ℝ. Excluded by hypothesis: zero-length segments, zero-area triangles, boxes with negative extents, negative depth.",
         technique="Lean 4 proof (structural induction over covering trees, best-first search invariant, build invariant, barycentric argument) over "
                   "regenerated geometry + bit-exact Float correspondence of the hand model + exhaustive-scan oracles"),
 )
